@@ -70,8 +70,8 @@ ASSUMPTIONS = [
     "only generated while the degree is <= 4, where the 5-point difference quotient with step 1 is exact",
     "coefficients(): lower bound = objects on whose data the expected array numerically depends; upper bound = operands of the recipe",
 ]
-BUDGET = {"quick": 45, "thorough": 330}
-NCASES = {"quick": 1400, "thorough": 20000}
+BUDGET = {"quick": 60, "thorough": 400}
+NCASES = {"quick": 2400, "thorough": 30000}
 CASE_TIMEOUT = 60.0
 EVAL_COUNTER = "nodes_checked"
 FLOORS = {"quick": {"nodes_checked": 10, "value_agree": 10}, "thorough": {"nodes_checked": 10, "value_agree": 10}}
@@ -310,7 +310,7 @@ class Case:
 
     # ---------------------------------------------------------------- operand selection
     def baseforms(self, pred=lambda n: True, maxdepth=3):
-        return [n for n in self.pool if not n.vec and n.depth <= maxdepth and pred(n)]
+        return [n for n in self.pool if not n.vec and not n.bad and n.depth <= maxdepth and pred(n)]
 
     def random_slots(self, k=None, primal_only=False):
         rng = self.rng
@@ -436,7 +436,13 @@ class Case:
 
     def op_radd0(self):
         a = self.pick_baseform()
-        var = self.rng.choice(["0+A", "A+0", "A+0.0", "sum", "A-0", "A+Zero"])
+        var = self.rng.choice(["0+A", "A+0", "A+0.0", "sum", "A-0", "A+Zero", "0-A"])
+        if var == "0-A":
+            def fneg(ov):
+                x, m_ = a.ev(ov)
+                return (None if x is None else -x), m_
+
+            return var, (a,), a.slots, lambda: 0 - a.ufl, fneg, {}
         if var == "sum":
             b = self.partner(a)
             if a.slots is None and b.slots is not None:
@@ -458,7 +464,13 @@ class Case:
     def op_formsum(self):
         a = self.pick_baseform()
         n = self.rng.choice([1, 2, 2, 3])
-        comps = [a] + [self.partner(a) for _ in range(n - 1)]
+        comps = [a]
+        ref = a
+        for _ in range(n - 1):
+            b = self.partner(ref)
+            comps.append(b)
+            if ref.slots is None and b.slots is not None:
+                ref = b
         ws = [self.weight() for _ in comps]
         if n == 1 and self.rng.random() < 0.5:
             ws = [(1, 1 + 0j)]
@@ -480,7 +492,7 @@ class Case:
         """A node whose first slot is the dual of `last`."""
         rng = self.rng
         need = dual(last)
-        c = [n for n in self.pool if n.slots and n.slots[0] == need and n.depth <= 3 and n.kind != "Argument"]
+        c = [n for n in self.pool if n.slots and n.slots[0] == need and n.depth <= 3 and n.kind != "Argument" and not n.bad]
         r = rng.random()
         if need[1]:  # a vector of V: Coefficient, sum of Coefficients, or an operator with first slot in V*
             cv = [n for n in c if n.vec]
@@ -705,7 +717,7 @@ class Case:
 
 FAMILY = {
     "add": "FormSum", "sub": "FormSum", "neg": "FormSum", "scale": "FormSum", "0+A": "FormSum", "A+0": "FormSum", "A+0.0": "FormSum", "A-0": "FormSum",
-    "A+Zero": "FormSum", "sum()": "FormSum", "FormSum()": "FormSum", "action": "Action", "Action": "Action", "mul": "Action", "matmul": "Action",
+    "A+Zero": "FormSum", "0-A": "FormSum", "sum()": "FormSum", "FormSum()": "FormSum", "action": "Action", "Action": "Action", "mul": "Action", "matmul": "Action",
     "call": "Action", "F(f,..)": "Action", "adjoint": "Adjoint", "Adjoint": "Adjoint", "derivative": "derivative",
     "expand_derivatives": "map_integrands", "map_integrands(id)": "map_integrands",
 }
@@ -735,7 +747,7 @@ def sig_ops(node):
     return f"{node.op}({','.join(tname(k.ufl) for k in node.kids)})->{tname(node.ufl)}"
 
 
-def mechanism(case, node, what, obj, args=None, missing=None):
+def mechanism(case, node, what, obj, args=None, missing=None, extra=None):
     """Short stable name of the cause where the monitor can tell; otherwise the operator/operand-type signature."""
     from ufl.argument import BaseArgument
 
@@ -743,8 +755,10 @@ def mechanism(case, node, what, obj, args=None, missing=None):
     if what.startswith("arguments") and args is not None:
         if any(not isinstance(a, BaseArgument) for a in args):
             return "non-argument-listed-as-argument:" + "+".join(sorted({tname(a) for a in args if not isinstance(a, BaseArgument)}))
-        if fam == "derivative" and node.info and node.info[1] == "Cofunction" and type(node.kids[0].ufl) is Form:
-            return "Form-wrt-Cofunction"
+        if fam == "derivative" and node.info and node.info[1] == "Cofunction" and node.slots and len(args) == len(node.slots):
+            got_last = args[-1].ufl_function_space()
+            if got_last == case.m.slot_space(dual(node.slots[-1])):
+                return "Form-wrt-Cofunction"
         if type(obj) is FormSum and node.slots is not None:
             try:
                 lens = {len(c.arguments()) for c in obj.components()}
@@ -752,6 +766,16 @@ def mechanism(case, node, what, obj, args=None, missing=None):
                 lens = set()
             if lens == {len(node.slots)} and len(args) > len(node.slots):
                 return "components-number-the-same-slot-differently"
+    if fam == "derivative" and what == "arguments-space" and args is not None and node.slots and len(args) == len(node.slots) >= 2:
+        got = [a.ufl_function_space() for a in args]
+        want = [case.m.slot_space(s_) for s_ in node.slots]
+        if got[0] == want[-1] and got[1:] == want[:-1]:
+            return "direction-slot-first-instead-of-last"
+    if fam == "derivative" and what == "value" and extra is not None:
+        E_, O_ = extra
+        if E_ is not None and O_ is not None and E_.ndim == O_.ndim >= 2 and np.moveaxis(O_, 0, -1).shape == E_.shape:
+            if mx(np.moveaxis(O_, 0, -1) - E_) <= 1e-8 * max(1.0, mx(E_)):
+                return "direction-slot-first-instead-of-last"
     if what == "coefficient-missing" and node.op == "Action" and node.kids and node.kids[0].kind == "Coefficient" and missing in node.kids[0].syn:
         return "left-Coefficient-operand"
     if what == "value" and fam == "Adjoint" and case.cplx:
@@ -805,16 +829,19 @@ def check(case, node):
         except Inconsistent as ex:
             status = "bad"
             node.bad = True
-            ctx.violation(f"C28/{fam}/{tag}structure/{sig_ops(node)}", f"the object returned for {describe(node)} cannot be assembled consistently: {ex}", detail(case, node))
+            mech = "contains-itself-after-identity-shortcut" if "cyclic" in str(ex) else sig_ops(node)
+            ctx.violation(f"C28/{fam}/{tag}structure/{mech}", f"the object returned for {describe(node)} cannot be assembled consistently: {ex}", detail(case, node))
         if status == "ok":
             v = compare(E_, Emag, O_, Omag)
             ctx.count("value_" + v[0] if not tag else "unexpanded_value_" + v[0])
             if v[0] == "disagree":
                 node.bad = True
-                ctx.violation(f"C28/{fam}/{tag}value/{mechanism(case, node, 'value', obj)}", f"array assembled from the result of {describe(node)} differs from the numpy denotation: {v[1]}",
+                ctx.violation(f"C28/{fam}/{tag}value/{mechanism(case, node, 'value', obj, extra=(E_, O_))}", f"array assembled from the result of {describe(node)} differs from the numpy denotation: {v[1]}",
                               detail(case, node, {"expected": arr_str(E_), "observed": arr_str(O_)}))
             elif v[0] == "agree" and not tag:
                 value_done = True
+            if v[0] == "disagree":
+                continue
         if status == "bad":
             continue
         # ---- arguments
@@ -856,6 +883,9 @@ def recheck_operands(case, node):
         except Inconsistent as ex:
             v = ("disagree", str(ex))
         ctx.count("operand_rechecks")
+        if v[0] == "disagree" and node.bad and node.ufl is k.ufl:
+            k.bad = True  # already reported for the result, which is this very object
+            continue
         if v[0] == "disagree":
             k.bad = True
             node.bad = True
